@@ -72,7 +72,9 @@ def run(rep: Report, tier: str) -> None:
     # the per-year loop iterates that dictionary's items
     it2 = per_year.iter
     it2_txt = unparse(it2)
-    uses_dict = dname in it2_txt and ".items()" in it2_txt
+    # two spellings of "every (year, group) of the dictionary": the items, or the keys with the group read back through the key
+    by_key = isinstance(per_year.target, ast.Name) and isinstance(it2, ast.Call) and len(it2.args) == 1 and unparse(it2.args[0]) in (dname, f"{dname}.keys()")
+    uses_dict = dname in it2_txt and (".items()" in it2_txt or by_key)
     rep.check(uses_dict, ra, JP, ga.qualname, "one per-year call for every group of the dictionary", f"the per-year loop iterates {it2_txt}; expected the items of {dname}", loc(per_year))
     calls = [n for n in ast.walk(per_year) if isinstance(n, ast.Call) and isinstance(n.func, ast.Attribute) and n.func.attr == "__generate_asset_year"]
     ok = len(calls) == 1 and not any(isinstance(a, (ast.If, ast.Try)) for a in ancestors(calls[0]) if a is not per_year and a is not ga.node and not isinstance(a, (ast.ClassDef, ast.For, ast.Assign)))
@@ -80,7 +82,10 @@ def run(rep: Report, tier: str) -> None:
     from ..loader import call_args
 
     kw = {p: unparse(v) for p, v in call_args(calls[0], gy.param_names[1:]).items()} if calls else {}
-    yv, tsv = (per_year.target.elts[0].id, per_year.target.elts[1].id) if isinstance(per_year.target, ast.Tuple) and len(per_year.target.elts) == 2 else ("?", "?")
+    yv, tsv = (per_year.target.elts[0].id, per_year.target.elts[1].id) if isinstance(per_year.target, ast.Tuple) and len(per_year.target.elts) == 2 and all(isinstance(e, ast.Name) for e in per_year.target.elts) else ("?", "?")
+    if by_key:
+        yv, tsv = per_year.target.id, f"{dname}[{per_year.target.id}]"
+        rep.check(not any(isinstance(n, ast.Name) and n.id == yv and isinstance(n.ctx, ast.Store) for st_ in per_year.body for n in ast.walk(st_)), ra, JP, ga.qualname, "the loop's year is not rebound inside the loop", f"'{yv}' is assigned inside the per-year loop: the group read back through it is no longer the group of the iteration", loc(per_year))
     ok = kw.get("asset") == "asset" and kw.get("year") == yv and kw.get("transaction_list") in (f"sorted({tsv}, key=lambda x: x.timestamp)", f"sorted({tsv}, key=attrgetter('timestamp'))", f"sorted({tsv}, key=operator.attrgetter('timestamp'))", f"list({tsv})") and kw.get("output_file") == "output_file"
     rep.check(ok, ra, JP, ga.qualname, "the call receives this group's year and its transactions sorted by time", f"per-year call arguments: {kw}", loc(calls[0]) if calls else loc(per_year))
     # per-year writer: template copied once under the name builder, rows
@@ -126,7 +131,7 @@ def run(rep: Report, tier: str) -> None:
 
     # ---------------------------------------------------------------- C20.b
     rb = rep.rule("C20.b", "year groups are processed in ascending year order", floor=1)
-    ordered = isinstance(it2, ast.Call) and isinstance(it2.func, ast.Name) and it2.func.id == "sorted" and len(it2.args) == 1 and unparse(it2.args[0]) in (f"{dname}.items()",) and not any(k.arg == "reverse" for k in it2.keywords) and not [k for k in it2.keywords if k.arg == "key" and "[0]" not in unparse(k.value)]
+    ordered = isinstance(it2, ast.Call) and isinstance(it2.func, ast.Name) and it2.func.id == "sorted" and len(it2.args) == 1 and unparse(it2.args[0]) in ((f"{dname}.items()",) if not by_key else (dname, f"{dname}.keys()")) and not any(k.arg == "reverse" for k in it2.keywords) and not [k for k in it2.keywords if k.arg == "key" and "[0]" not in unparse(k.value)]
     rep.check(ordered, rb, JP, ga.qualname, "per-year loop iterates sorted(<groups>.items())", f"the loop that threads previous_year_row_offset iterates {it2_txt}: the dictionary is filled while chaining three separately sorted sets, so its own order is 'first seen', not ascending; 'the most recent earlier year' needs ascending year order", loc(per_year))
 
     # ---------------------------------------------------------------- C20.c
@@ -177,25 +182,89 @@ def run(rep: Report, tier: str) -> None:
     rep.check("self.__year_row_offset" in inst and "self.__number_of_summaries" in inst, rd, JP, "Generator.__init__", "summary bookkeeping is per instance (set in __init__)", f"__init__ sets {inst}: class-level bookkeeping would leak across runs", loc(gen.node))
     cls_level = [n for n in gen.class_attrs if "year_row_offset" in n or "number_of_summaries" in n]
     rep.check(not cls_level, rd, JP, "Generator", "no class-level summary state", f"class-level attributes {cls_level}", loc(gen.node))
-    first_seen = [n for n in ast.walk(gy.node) if isinstance(n, ast.If) and unparse(n.test) == "self.__year_row_offset.setdefault(year, 7) == 7"]
-    ok = len(first_seen) == 1
-    if ok:
-        b = " ".join(unparse(s) for s in first_seen[0].body)
-        e = " ".join(unparse(s) for s in first_seen[0].orelse)
-        ok = "output_file.sheets[self.SUMMARY_TEMPLATE_SHEET].copy(newname=self.get_summary_sheet_name(year))" in b and "self.__number_of_summaries += 1" in b and "output_file.sheets[self.get_summary_sheet_name(year)]" in e
-    rep.check(ok, rd, JP, gy.qualname, "summary sheet copied when the year is first seen, looked up otherwise", "the first-seen test / creation / lookup of the yearly summary sheet changed", loc(gy.node))
-    tail = [unparse(s) for s in gy.node.body]
-    rep.check("self.__insert_summary_row(year_summary_sheet, self.__year_row_offset[year])" in tail and "self.__year_row_offset[year] += 1" in tail, rd, JP, gy.qualname, "one summary line inserted per asset-year and the offset advanced by one", "the per-asset-year summary line is no longer inserted once at the year's offset followed by offset += 1", loc(gy.node))
-    refs = [n for n in gy.node.body if isinstance(n, ast.Expr) and "year_summary_sheet" in unparse(n) and "='" in unparse(n)]
-    ok = len(refs) == 4 and all("self.get_tax_sheet_name(asset, year)" in unparse(n) and "self.__year_row_offset[year]" in unparse(n) for n in refs)
-    cells = sorted(unparse(n).split("'.")[1].split("}")[0] for n in refs) if ok else []
-    rep.check(ok and cells == ["G{row_index + 10", "I{row_index + 10", "I{row_index + 18", "I{row_index + 9"], rd, JP, gy.qualname, "the four summary references point at this asset-year's sheet (unit price, end balances, net income)", f"summary references: {[short(n, 120) for n in refs]}", loc(gy.node))
-    asset_cell = [n for n in gy.node.body if isinstance(n, ast.Expr) and unparse(n.value).startswith("self._fill_cell(year_summary_sheet, self.__year_row_offset[year], 0, asset")]
-    rep.check(len(asset_cell) == 1, rd, JP, gy.qualname, "the summary line is labelled with the asset", "the summary line no longer starts with the asset name", loc(gy.node))
+    _summary_trace(rep, rd, norm, gy, row_loop)
     g = gen.methods["generate"]
     lp = [n for n in g.node.body if isinstance(n, ast.For) and "asset_to_computed_data.items()" in unparse(n.iter)]
     ok = len(lp) == 1 and any(isinstance(c, ast.Call) and unparse(c) == "self.__generate_asset(computed_data, output_file)" for c in ast.walk(lp[0]))
     rep.check(ok, rd, JP, g.qualname, "generate() writes every asset", "generate() no longer calls __generate_asset(computed_data, output_file) for every asset", loc(g.node))
+
+
+def _summary_trace(rep: Report, rd, norm, gy, row_loop: ast.For) -> None:
+    """C20.d on the *trace* of the per-year writer rather than on its text: the statements before and after the row loop are walked symbolically (locals
+    substituted, slot reads of the offset dictionary resolved, the name builders entered), so a row number or a sheet name kept in a local, an offset
+    advanced by `= row + 1` instead of `+= 1`, or the first-seen test on a saved `setdefault` result are the same trace."""
+    from ..norm import ANY
+
+    body = gy.node.body
+    i = body.index(row_loop)
+    se = SymExec(norm, norm.ctx_for(gy, subst_locals=False))
+    paths: List[SPath] = []
+    for st in se.run(body[:i], SPath()):
+        if st.exit != "fall":
+            continue
+        for n in ast.walk(row_loop):  # whatever the row loop assigns is unknown afterwards
+            if isinstance(n, ast.Name) and isinstance(n.ctx, ast.Store):
+                st.vars[n.id] = (("sym", n.id), se._declared.get(n.id, ANY))
+        paths += [p for p in se.run(body[i + 1 :], st) if p.exit == "return"]
+    if not paths:
+        raise AnalysisError("no returning path through the tail of __generate_asset_year")
+    probe = paths[0]
+    own = se.eval(ast.parse("self.get_tax_sheet_name(asset, year)", mode="eval").body, probe)[0]
+    sname = se.eval(ast.parse("self.get_summary_sheet_name(year)", mode="eval").body, probe)[0]
+    sheets = ("attr", ("sym", "output_file"), "sheets")
+    offsets = ("fld", ("sym", "self"), "Generator.__year_row_offset")
+    count = ("fld", ("sym", "self"), "Generator.__number_of_summaries")
+    year = ("sym", "year")
+    row = ("sym", "row_index")
+
+    def is_off(t) -> bool:
+        return isinstance(t, tuple) and t[:3] == ("old", offsets, year)
+
+    def is_created(t) -> bool:  # <template 'Summary'>.copy(newname=<summary name of this year>)
+        return isinstance(t, tuple) and t[:2] == ("xcall", "copy") and isinstance(t[2], tuple) and t[2][:3] == ("old", sheets, ("const", "Summary")) and dict(t[4]).get("newname") == sname and not t[3]
+
+    def is_looked_up(t) -> bool:
+        return isinstance(t, tuple) and t[:3] == ("old", sheets, sname)
+
+    seen = {True: 0, False: 0}
+    for p in paths:
+        first = [c for c in p.conds() if c[0] == "cmp" and c[1] in ("==", "!=") and {c[3], c[2]} & {("const", 7)} and (is_off(c[2]) or is_off(c[3]))]
+        default_ok = all(v == ("const", 7) for k, v in p.defaults.items() if k[0] == tkey(offsets))
+        if len(first) != 1 or not default_ok:
+            rep.violation(rd, JP, gy.qualname, "summary sheet created when the year's offset is first set (setdefault(year, 7) == 7)", f"a path through the tail decides the creation of the yearly summary sheet on {[show(c) for c in first] or [show(c)[:80] for c in p.conds()]} (offset defaults on the path: {[show(v) for k, v in p.defaults.items() if k[0] == tkey(offsets)]}); expected the single test <offset of this year, defaulting to 7> == 7", loc(gy.node))
+            continue
+        is_first = first[0][1] == "=="
+        seen[is_first] += 1
+        fills = [dict(e[1][2]) for e in p.calls() if e[1][0] == "call" and e[1][1].endswith("._fill_cell")]
+        summary = [f for f in fills if is_created(f.get("sheet")) or is_looked_up(f.get("sheet"))]
+        inserts = [e[1] for e in p.calls() if e[1][0] == "xcall" and e[1][1] == "insert" and e[1][2] == sheets]
+        bumps = [e for e in p.events if e[0] == "setattr" and e[2] == "Generator.__number_of_summaries"]
+        if is_first:
+            ok = len(inserts) == 1 and len(inserts[0][3]) == 2 and is_created(inserts[0][3][1]) and inserts[0][3][0] == mk_add([("const", 2), count]) and len(bumps) == 1 and bumps[0][3] == mk_add([("const", 1), count]) and all(is_created(f["sheet"]) for f in summary)
+            rep.check(ok, rd, JP, gy.qualname, "first asset of a year: the summary template is copied under this year's summary name, inserted after the summaries so far, and counted", f"on the first-seen path: sheets inserted {[show(x)[:160] for x in inserts]}, summary counter updates {[show(b[3]) for b in bumps]}, summary cells written to {sorted({show(f['sheet'])[:80] for f in summary})}", loc(gy.node))
+        else:
+            ok = not inserts and not bumps and all(is_looked_up(f["sheet"]) for f in summary)
+            rep.check(ok, rd, JP, gy.qualname, "later assets of a year: the existing summary sheet is looked up by this year's summary name, nothing created", f"on the already-seen path: sheets inserted {[show(x)[:160] for x in inserts]}, summary counter updates {[show(b[3]) for b in bumps]}, summary cells written to {sorted({show(f['sheet'])[:80] for f in summary})}", loc(gy.node))
+        lines = [dict(e[1][2]) for e in p.calls() if e[1][0] == "call" and e[1][1].endswith(".__insert_summary_row")]
+        stores = [e for e in p.stores() if e[1] == offsets]
+        ok = len(lines) == 1 and is_off(lines[0].get("row")) and (is_created(lines[0].get("sheet_name")) or is_looked_up(lines[0].get("sheet_name"))) and len(stores) == 1 and stores[0][2] == year and is_off(_minus_one(stores[0][3]))
+        rep.check(ok, rd, JP, gy.qualname, "one summary line inserted per asset-year at the year's offset, and the offset advanced by one", f"summary lines inserted at {[show(x.get('row')) for x in lines]}; offset updates {[(show(e[2]), show(e[3])) for e in stores]}; expected one line at the year's offset and offset[year] = offset[year] + 1", loc(gy.node))
+        at_row = all(is_off(f.get("row_index")) for f in summary)
+        cols = {f["column_index"][1]: f.get("value") for f in summary if f.get("column_index", ("?",))[0] == "const"}
+        rep.check(at_row and len(summary) == len(cols) and cols.get(0) == ("sym", "asset"), rd, JP, gy.qualname, "the summary line is written at the year's offset, one cell per column, labelled with the asset", f"summary cells: {[(show(f.get('row_index')), show(f.get('column_index')), show(f.get('value'))[:60]) for f in summary]}", loc(gy.node))
+        want = {3: ("G", 10), 4: ("I", 9), 5: ("I", 10), 6: ("I", 18)}
+        got = {c: cols.get(c) for c in want}
+        ok = all(got[c] == ("fstr", ("='", own, f"'.{col}", mk_add([("const", k), row]))) for c, (col, k) in want.items())
+        rep.check(ok, rd, JP, gy.qualname, "the four summary references point at this asset-year's sheet (unit price, end balances, net income)", f"summary references: { {c: show(v)[:120] if v else None for c, v in got.items()} }; expected ='<name of this asset-year's sheet>'.G<row+10>, .I<row+9>, .I<row+10>, .I<row+18>", loc(gy.node))
+    if not (seen[True] and seen[False]):
+        rep.violation(rd, JP, gy.qualname, "both the first-seen and the already-seen case of the yearly summary exist", f"paths through the tail: first-seen {seen[True]}, already-seen {seen[False]}", loc(gy.node))
+
+
+def _minus_one(t):
+    """x for the term x + 1 (None otherwise)."""
+    if isinstance(t, tuple) and t and t[0] == "add" and ("const", 1) in t[1] and len(t[1]) == 2:
+        return [x for x in t[1] if x != ("const", 1)][0]
+    return None
 
 
 def _summary_tail(loop: ast.For) -> bool:
